@@ -10,6 +10,29 @@ TRUST = ("z3 5.1.0 (thorough tier cross-checks every decided query with cvc5 1.4
          "semantics of the kernels; the stubs listed in the evidence file")
 
 CHECKS = {
+    "C01": dict(
+        text="Part A: the real conv.convolution / quad_ker_* run on a GENERIC distribution (uninterpreted R(z), S(z), L(x); all 8 "
+             "shapes), a generic basis function with symbolic area borders (log and linear) and symbolic x; all feasible paths "
+             "are explored and z3 proves the integrand handed to the quadrature, the limits, break points, epsabs, the result "
+             "I + F(x) L(x) and the empty-domain exit. Part B: the real ESF.compute_local + Combiner + channel classes with "
+             "conv.convolution recorded: every operator entry equals sum_kernels w_p * chi * conv_j(rsl_o, chi) (errors with "
+             "|w_p|) and chi equals the published convolution point (x, x(1+m2/Q2), x(1+sqrt(1+4m2/Q2))/2). Holds for every "
+             "coefficient function and basis function at once, which no sampled run can show.",
+        note=TRUST + "; QUADPACK and eko's polynomials are replaced by their contracts (quadrature accuracy outside); scale "
+             "variations switched off here (C05).",
+        technique="symbolic execution of conv.convolution/compute_local with uninterpreted integrands (z3 QF_UFNRA) + path exploration",
+        design="§4 C01",
+    ),
+    "C09": dict(
+        text="Every heavy neutral-current channel class x order (18 classes found by introspection) is built through its real "
+             "constructor on symbolic x, Q2, m2 and explored path by path with LeProHQ/adani/tabulated coefficients as "
+             "unconstrained atoms; z3 proves on every path that a non-empty coefficient is returned only for Q2(1-x)/x > 4m2 and "
+             "a non-literal-zero integrand value only for Q2(1-z)/z > 4m2 (boundary included); CC convolution point == "
+             "x(1+m2/Q2); conv.convolution returns exactly (0,0) without touching the integrand for a point >= 1-eps.",
+        note=TRUST + "; external libraries are uninterpreted, so only yadism's own guards can produce the zeros.",
+        technique="symbolic execution of the real heavy-quark classes (z3 proxies, path exploration) + z3 NRA implication queries",
+        design="§4 C09",
+    ),
     "C10": dict(
         text="The real ESFTMC_{F2,FL,F3,g1} classes (constructors, get_result, _convolve_FX, the njit TMC kernels) run on symbolic "
              "x in (0,1], Q2>0, M^2>=0 (parametrised by rho>=1) and symbolic grid nodes, with the uncorrected structure "
